@@ -27,6 +27,8 @@ Record callees := {
   c_decode : bytes -> bytes -> dcres;  (* Body.decompress(): Content-Encoding value, coded octets *)
   c_2047 : bytes -> r2047;             (* Headers.__getitem__ on a value that triggers RFC 2047 decoding *)
   c_trailer : bytes -> trres;          (* canonical names announced by a Trailer value *)
+  c_connect : bytes -> bool;           (* client machine only: remove_invalid_headers strips the framing fields of the message with this
+                                          status line (as found: whenever self.request is a CONNECT; RFC 7231 4.3.6: and the status is 2xx) *)
 }.
 
 Inductive err := EHttp (code : N) | EPeek411 (* 411 raised by check_message_without_body_containing_data *) | EEscape | EMiss | EFuel.
@@ -264,11 +266,15 @@ Definition parse_body (i : inflight) (b : bytes) : pres inflight :=
   end.
 
 (* ---- hooks ---- *)
+(* ClientStateMachine.remove_invalid_headers: a response to CONNECT carries no framing fields *)
+Definition connect_response (line : bytes) : bool := match k with Client => c_connect C line | Server => false end.
+Definition hc_hdrs (line : bytes) (h : hdrs) : hdrs := if connect_response line then hdel K_TE (hdel K_CL h) else h.
 Definition on_headers_complete (i : inflight) : inflight + err :=
   let h := i_hdrs i in
   if (match k with Server => p11 (i_info i) && negb (hmem K_HOST h) | Client => false end) then inr (EHttp 400)
   else match c_hdrs C (p11 (i_info i)) h with
-       | HOk => inl (set_ce i (hget K_CE h))
+       | HOk =>
+           inl (set_ce (set_hdrs i (hc_hdrs (i_line i) h)) (hget K_CE h))
        | HErr c => inr (EHttp c) | HEscape => inr EEscape | HMiss => inr EMiss
        end.
 
